@@ -480,10 +480,14 @@ def main():
     sys.path.insert(0, os.path.join(VERIF, "lib"))
     cp = os.path.join(VERIF, "lib", "cfg", pid + ".json")
     cfg = json.load(open(cp)) if os.path.exists(cp) else {}
+    # two runs of one property's check on the same tree share run/<id> and evidence/<id>.json: one at a time
+    os.makedirs(BUILD, exist_ok=True)
+    plock = open(os.path.join(BUILD, ".run-%s%s.lock" % (ALTTAG + "-" if ALT else "", pid)), "w")
+    fcntl.flock(plock, fcntl.LOCK_EX)
     rc = check(pid, tier, cfg, replay)
     if ALT and not os.environ.get("VERIF_ALT_KEEP"):
         import glob, shutil
-        for d in glob.glob(os.path.join(BUILD, ALTTAG + "-*")) + glob.glob(os.path.join(RUN, ALTTAG + "-*")):
+        for d in glob.glob(os.path.join(BUILD, ALTTAG + "-*")) + glob.glob(os.path.join(RUN, ALTTAG + "-*")) + glob.glob(os.path.join(BUILD, ".run-" + ALTTAG + "-*")):
             if os.path.isdir(d):
                 shutil.rmtree(d, ignore_errors=True)
             else:
